@@ -252,6 +252,42 @@ fn main() {
             r
         }));
     }
+    {
+        // key-length ladder: keys of EVERY length 1..=max (fixed stack buffers / length fields in the lookup path),
+        // present, absent, and absent-but-a-prefix-of-it present / it-a-prefix-of-a-present-name
+        let kmax = if args.thorough { 5000 } else { 700 };
+        items.push(isolated("key-length-ladder", move || {
+            let mut r = Report::new();
+            for len in 1..=kmax {
+                let key: Vec<u8> = (0..len).map(|i| b"ABCDEFGHIJKLMNOPQRSTUVWXYZ"[i % 26]).collect();
+                let mk = |name: &[u8], val: &[u8]| {
+                    let mut e = name.to_vec();
+                    e.push(b'=');
+                    e.extend_from_slice(val);
+                    e
+                };
+                let mut longer = key.clone();
+                longer.push(b'Z');
+                let shorter = key[..len - 1].to_vec();
+                let blocks: Vec<Vec<Vec<u8>>> = vec![
+                    vec![mk(&key, b"exact")],
+                    vec![mk(&longer, b"longer"), mk(&key, b"exact")],
+                    vec![mk(&shorter, b"shorter"), mk(&key, b"exact")],
+                    vec![mk(&longer, b"longer")],
+                    vec![mk(&shorter, b"shorter")],
+                    vec![mk(&shorter, b"shorter"), mk(&longer, b"longer")],
+                ];
+                for b in &blocks {
+                    let er: Vec<&[u8]> = b.iter().map(|e| e.as_slice()).collect();
+                    let blk = block(&er);
+                    unsafe { env::verif_set_env(0, std::ptr::null(), blk.ptrs.as_ptr()) };
+                    check_lookup(&er, &key, &mut r);
+                }
+            }
+            unsafe { env::verif_set_env(0, std::ptr::null(), std::ptr::null()) };
+            r
+        }));
+    }
     items.push(isolated("args", move || {
         let mut r = Report::new();
         args_sweep(&mut r);
@@ -262,7 +298,8 @@ fn main() {
     r.rule = format!(
         "every environment block of <= {max_entries} entries, each entry any string of length <= {elen} over the alphabet {:?} (duplicates, names that are prefixes of the key or of each other, \
          empty values, values containing '=', entries without '='), x every non-empty key of length <= 3 over {{A,B}}, for var_unix and var; every argv of <= 3 strings from \
-         {{empty, a, 0xFF, e-acute, 300 bytes}} for args_os/args. Each case generated once.",
+         {{empty, a, 0xFF, e-acute, 300 bytes}} for args_os/args; a key-length ladder: a key of every length 1..=700 (thorough 5000) against blocks holding \
+         the exact name, a one-byte-longer name, a one-byte-shorter name and their combinations. Each case generated once.",
         show_bytes(alpha)
     );
     r.bound("max_entries", max_entries);
